@@ -108,7 +108,7 @@ class CaseRun(object):
                         'rebuilt machine does not exist or exports a different markup'}, None))
 
 
-def run_batch(descs):
+def run_batch(descs, model=True):
     runs = []
     for d in descs:
         try:
@@ -119,9 +119,10 @@ def run_batch(descs):
             import traceback
             raise common.MachineryError('case could not be realised: %s\n%s\n%s' % (
                 e, traceback.format_exc()[-1500:], json.dumps(d)[:3000]))
-    answers = common.batch_driver([r.request for r in runs])
-    for r, a in zip(runs, answers):
-        r.judge_model(a)
+    if model:
+        answers = common.batch_driver([r.request for r in runs])
+        for r, a in zip(runs, answers):
+            r.judge_model(a)
     return runs
 
 
@@ -252,8 +253,8 @@ def shrink_steps(case):
             yield mk(c)
 
 
-def rejudge(case):
-    return run_batch([case['desc']])[0]
+def rejudge(case, model=True):
+    return run_batch([case['desc']], model=model)[0]
 
 
 class C14(runner.Check):
@@ -313,15 +314,14 @@ class C14(runner.Check):
         return ex
 
     def _shrink(self, failures):
-        done = set()
-        for f in failures:
+        """shrink what the verdict will show: the first unlisted monitor failure, else the first
+        correspondence failure (known findings need no replay)"""
+        known = [k.get('signature') for k in self.known()]
+        unlisted = [f for f in failures if f.kind == 'monitor' and not (f.signature is not None and f.signature in known)]
+        corr = [f for f in failures if f.kind != 'monitor']
+        for f in (unlisted[:1] or corr[:1]):
             key = (f.kind, f.what, f.signature)
-            if key in done:
-                continue
-            done.add(key)
-            if f.signature is not None and f.signature in [k.get('signature') for k in self.known()]:
-                continue      # known finding: no replay needed
-            f.case = runner.shrink(f.case, self.fails_like(f.kind, f.what, f.signature), shrink_steps, budget=250)
+            f.case = runner.shrink(f.case, self.fails_like(f.kind, f.what, f.signature), shrink_steps, budget=300)
             r = rejudge(f.case)
             for kind, what, details, sig in r.failures:
                 if (kind, what, sig) == key:
@@ -329,16 +329,18 @@ class C14(runner.Check):
                     break
 
     def fails_like(self, kind, what, sig):
+        needs_model = kind != 'monitor' or what == 'roundtrip.inside-theorem-domain'
+
         def f(case):
             try:
-                r = rejudge(case)
+                r = rejudge(case, model=needs_model)
             except common.MachineryError:
                 return False
             return any((k, w, s) == (kind, what, sig) for k, w, _d, s in r.failures)
         return f
 
     def search(self, tier, seed, failures):
-        payloads = [(seed + 7919, i, 60, name) for name, _q, _t in self.streams for i in range(16)]
+        payloads = [(seed + 7919, i, 40, name) for name, _q, _t in self.streams for i in range(16)]
         found = []
         for part in runner.parallel(chunk, payloads):
             found += [f for f in part.failures if f.kind == 'monitor']
@@ -353,9 +355,13 @@ class C14(runner.Check):
             return 1
         r = rejudge(payload['case'])
         print(json.dumps(payload['case']['desc'], indent=1)[:4000])
+        known = [k.get('signature') for k in self.known()]
+        bad = 0
         for kind, what, details, sig in r.failures:
-            print('FAIL', kind, what, sig or '', json.dumps(details, default=str)[:600])
-        return 1 if r.failures else 0
+            listed = sig is not None and sig in known
+            bad += 0 if listed else 1
+            print('KNOWN-FINDING' if listed else 'FAIL', kind, what, sig or '', json.dumps(details, default=str)[:600])
+        return 1 if bad else 0
 
     def assumptions(self):
         return ['callbacks are given by name (strings); callables are exported through format_references and are not '
